@@ -292,6 +292,50 @@ def qobjevo_cases(report):
     return n
 
 
+def replay_history(hist, report):
+    """Re-execute one recorded history (depth-1 unary / binary case or a chain)
+    and judge every intermediate result.  Returns False when the history is of
+    another kind (solver / QobjEvo families: re-run the whole oracle then)."""
+    from qutip import Qobj
+    P, U, B = pool(), unary_ops(), binary_ops()
+    if not hist or not isinstance(hist[0], list) or hist[0][0] not in P:
+        return False
+    first = hist[0]
+    cur = mk(P[first[0]], first[1] if len(first) > 1 else "none",
+             dtype=first[2] if len(first) > 2 else None)
+    done = [list(first)]
+    rest = hist[1:]
+    # depth-1 binary form: [[a, ca], [b, cb], op]
+    if len(rest) == 2 and isinstance(rest[0], list) and rest[0][0] in P and isinstance(rest[1], str) \
+            and rest[1] in B:
+        other = mk(P[rest[0][0]], rest[0][1])
+        r = B[rest[1]](cur, other)
+        check_flags(r, rest[1], report, hist)
+        return True
+    for step in rest:
+        if step == "read-isherm":
+            cur.isherm
+        elif step == "read-isunitary":
+            cur.isunitary
+        elif isinstance(step, str):
+            if step not in U:
+                return False
+            cur = U[step](cur)
+        else:
+            opn, nb = step[0], step[1]
+            if opn not in B or nb not in P:
+                return False
+            other = mk(P[nb], step[2] if len(step) > 2 else "none")
+            side = step[3] if len(step) > 3 else "cur-first"
+            cur = B[opn](cur, other) if side == "cur-first" else B[opn](other, cur)
+        done.append(step)
+        if not isinstance(cur, Qobj):
+            break
+        if not (isinstance(step, str) and step.startswith("read-")):
+            check_flags(cur, "chain:" + (step if isinstance(step, str) else step[0]), report, list(done))
+    return True
+
+
 def run_oracle(seed, budget_chains, report, count=None, only=None):
     """Depth-1 exhaustive over pool x cache states x operations, then random
     chains (depth 2-4) with random reads in between.  report(where, flag,
@@ -336,9 +380,9 @@ def run_oracle(seed, budget_chains, report, count=None, only=None):
     for _ in range(budget_chains):
         hist = []
         na = rng.choice(names)
-        cur = mk(P[na], rng.choice(CACHE_STATES),
-                 dtype=rng.choice([None, "csr", "dense", "dia"]))
-        hist.append([na])
+        c0, d0 = rng.choice(CACHE_STATES), rng.choice([None, "csr", "dense", "dia"])
+        cur = mk(P[na], c0, dtype=d0)
+        hist.append([na, c0, d0])
         for _step in range(rng.randint(2, 4)):
             try:
                 if rng.random() < 0.7 or cur.shape != (2, 2):
@@ -350,9 +394,11 @@ def run_oracle(seed, budget_chains, report, count=None, only=None):
                 else:
                     opn = rng.choice(bnames)
                     nb = rng.choice(names)
-                    other = mk(P[nb], rng.choice(CACHE_STATES))
-                    nxt = B[opn](cur, other) if rng.random() < 0.5 else B[opn](other, cur)
-                    hist.append([opn, nb])
+                    cb = rng.choice(CACHE_STATES)
+                    other = mk(P[nb], cb)
+                    side = "cur-first" if rng.random() < 0.5 else "other-first"
+                    nxt = B[opn](cur, other) if side == "cur-first" else B[opn](other, cur)
+                    hist.append([opn, nb, cb, side])
             except Exception:
                 break
             from qutip import Qobj
